@@ -109,3 +109,185 @@ def who_calls(ctx, rule, callee_pat, allowed, floor=1, what=None):
                   loc=s.loc())
     ctx.floor(rule, 'callers of ' + callee_pat, n, floor)
     return sites
+
+
+# ------------------------------------------------------------------ K9
+
+def loops_containing(body, bb):
+    out = []
+    seen = set()
+    for e in body.back_edges():
+        L = body.natural_loop(e)
+        if bb in L:
+            key = (e[1], frozenset(L))
+            if key not in seen:
+                seen.add(key)
+                out.append((e[1], L))
+    # merge loops with same head
+    merged = {}
+    for h, L in out:
+        merged.setdefault(h, set()).update(L)
+    return list(merged.items())
+
+
+def const_bool_assigns(body, local, blocks):
+    """(site, value) for `local = const bool` statements inside `blocks`;
+    value None for non-constant assignments."""
+    out = []
+    for site, s in body.whole_defs(local):
+        if site.bb not in blocks:
+            continue
+        if s.get('s') == 'assign' and s['rv']['r'] == 'use' and 'k' in s['rv']['o']:
+            out.append((site, s['rv']['o']['k'].get('int')))
+        elif s.get('s') == 'assign' and s['rv']['r'] == 'use':
+            p = s['rv']['o'].get('c') or s['rv']['o'].get('m')
+            out.append((site, ('copy', tuple(p) if p else None)))
+        else:
+            out.append((site, None))
+    return out
+
+
+def reach_within(body, starts, L, avoid_edges=(), avoid_nodes=()):
+    avoid_edges = set(avoid_edges)
+    avoid_nodes = set(avoid_nodes)
+    seen = set()
+    stack = [s for s in starts if s in L]
+    while stack:
+        b = stack.pop()
+        if b in seen:
+            continue
+        seen.add(b)
+        if b in avoid_nodes:
+            continue
+        for s in body.succ(b):
+            if s not in L or (b, s) in avoid_edges:
+                continue
+            if s not in seen:
+                stack.append(s)
+    return seen
+
+
+def k9_bounded_retry(ctx, body, run_site, rule='K9'):
+    """Every way back to the loop head from the Err arm of run_site is guarded
+    by a one-shot flag."""
+    b = body
+    loops = loops_containing(b, run_site.bb)
+    results = []
+    for head, L in loops:
+        backs = [(t, h) for (t, h) in b.back_edges() if h == head and t in L]
+        # error edges of the run result
+        fail_edges = []
+        for sbb in b.switches():
+            if sbb not in L:
+                continue
+            o, edges = b.switch_edges(sbb)
+            oc = o
+            while oc.kind in ('ref', 'cast', 'place'):
+                oc = oc.base
+            if oc.kind == 'call' and oc.site == run_site:
+                for tb, labs in edges.items():
+                    if labs & {'Err', 'fail', 'None', 'false'}:
+                        fail_edges.append((sbb, tb))
+        if not fail_edges:
+            ctx.bad(rule, '%s:loop@%s:no-err-edge' % (b.nid, run_site.callee),
+                    'cannot find the Err edge of the run result inside the loop (shape not recognised)',
+                    loc=run_site.loc())
+            continue
+        err_starts = [tb for (_s, tb) in fail_edges]
+        # one-shot flags
+        guards = []
+        flag_desc = []
+        for sbb in b.switches():
+            if sbb not in L:
+                continue
+            t = b.blocks[sbb]['term']
+            if t.get('dty') != 'bool':
+                continue
+            o, edges = b.switch_edges(sbb)
+            if o.kind not in ('local', 'multi', 'param') or not hasattr(o, 'local'):
+                # single-def locals come back as const/copy origins; handle below
+                pass
+            # find the flag local: walk the discriminant through plain copies
+            place = t['d'].get('c') or t['d'].get('m')
+            neg = False
+            flag = None
+            cur = place
+            for _ in range(10):
+                if cur is None or len(cur) != 1:
+                    break
+                ds = b.whole_defs(cur[0])
+                ins = [d for d in ds if d[0].bb in L]
+                if len(ds) == 1 and ds[0][1].get('s') == 'assign' and ds[0][1]['rv']['r'] == 'use' \
+                        and not b.locals[cur[0]]['user']:
+                    cur = ds[0][1]['rv']['o'].get('c') or ds[0][1]['rv']['o'].get('m')
+                    continue
+                if len(ds) == 1 and ds[0][1].get('s') == 'assign' and ds[0][1]['rv']['r'] == 'un' \
+                        and ds[0][1]['rv']['op'] == 'Not':
+                    cur = ds[0][1]['rv']['a'].get('c') or ds[0][1]['rv']['a'].get('m')
+                    continue
+                flag = cur[0]
+                break
+            if flag is None or not b.local_ty(flag) == 'bool':
+                continue
+            assigns = const_bool_assigns(b, flag, L)
+            vals = set(v for _s, v in assigns)
+            c = None
+            clear_sites = []
+            derived_from = None
+            if len(vals) == 1 and list(vals)[0] in (0, 1):
+                c = list(vals)[0]
+                clear_sites = [s for s, _v in assigns]
+            elif len(vals) == 1 and isinstance(list(vals)[0], tuple):
+                # derived flag: flag = copy F' ; F' one-shot and cleared unconditionally each iteration
+                src = list(vals)[0][1]
+                if src and len(src) == 1:
+                    a2 = const_bool_assigns(b, src[0], L)
+                    v2 = set(v for _s, v in a2)
+                    if len(v2) == 1 and list(v2)[0] in (0, 1):
+                        c = list(v2)[0]
+                        # the clear must dominate every back edge tail (unconditional per iteration)
+                        if all(any(b.site_dominates(s, Site(b, t_)) for s, _v in a2) for (t_, _h) in backs):
+                            derived_from = src[0]
+                        else:
+                            c = None
+            if c is None:
+                continue
+            want = 'false' if c == 1 else 'true'   # edge on which the flag still has its initial value
+            for tb, labs in edges.items():
+                if labs == {want}:
+                    if derived_from is not None:
+                        guards.append((sbb, tb))
+                        flag_desc.append('%s (copy of one-shot %s, cleared every iteration)'
+                                         % (b.local_name(flag), b.local_name(derived_from)))
+                    else:
+                        # the flag must be flipped on every path from this edge to a back edge
+                        r = reach_within(b, [tb], L, avoid_nodes=[s.bb for s in clear_sites])
+                        # a clear site in block X: entering X is fine (it flips), leaving not explored
+                        if not any(t_ in r and t_ not in [s.bb for s in clear_sites] for (t_, _h) in backs) \
+                                and not any((t_ in r and t_ in [s.bb for s in clear_sites]) and False for (t_, _h) in backs):
+                            guards.append((sbb, tb))
+                            flag_desc.append('%s (one-shot, flipped to %s before the back edge)'
+                                             % (b.local_name(flag), 'true' if c else 'false'))
+        r = reach_within(b, err_starts, L, avoid_edges=guards)
+        unguarded = [(t_, h_) for (t_, h_) in backs if t_ in r]
+        key = '%s:retry-loop@%s' % (b.nid, run_site.callee.split('::')[-2] + '::' + run_site.callee.split('::')[-1])
+        if unguarded:
+            # witness path
+            wit = None
+            for st in err_starts:
+                for (t_, h_) in unguarded:
+                    p = b.path_avoiding(t_, avoid_edges=set(guards) | set((a, c_) for a in L for c_ in b.succ(a) if c_ not in L), start=st)
+                    if p:
+                        wit = fmt_path(b, p)
+                        break
+                if wit:
+                    break
+            ctx.bad(rule, key,
+                    'the loop around the validation run can be re-entered from the Err arm without passing a one-shot '
+                    'guard: an unbounded number of retries is possible (flags seen: %s)' % (flag_desc or 'none'),
+                    loc=run_site.loc(), path=wit)
+        else:
+            ctx.ok(rule, key, 'every way back to the loop head from the Err arm passes a one-shot flag: %s'
+                   % sorted(set(flag_desc)), loc=run_site.loc())
+        results.append((head, not unguarded, flag_desc))
+    return results
